@@ -168,16 +168,24 @@ func (f factSet) list() []string {
 }
 
 // mustFacts runs a forward must-analysis: facts that hold on EVERY path from entry.
-//   gen(node)            facts established by executing a node
-//   edge(block, i)       facts established by leaving block through successor i
+//
+//	gen(node)            facts established by executing a node
+//	edge(block, i)       facts established by leaving block through successor i
+//
 // It returns, for each node of interest (selected by want), the facts that hold just before it.
 func mustFactsAtExits(g *cfg.CFG, gen func(ast.Node) []string, edge func(b *cfg.Block, i int) []string) []exitFacts {
 	n := len(g.Blocks)
-	in := make([]factSet, n)   // nil = top (unvisited)
-	preds := make([][]struct{ b *cfg.Block; i int }, n)
+	in := make([]factSet, n) // nil = top (unvisited)
+	preds := make([][]struct {
+		b *cfg.Block
+		i int
+	}, n)
 	for _, b := range g.Blocks {
 		for i, s := range b.Succs {
-			preds[s.Index] = append(preds[s.Index], struct{ b *cfg.Block; i int }{b, i})
+			preds[s.Index] = append(preds[s.Index], struct {
+				b *cfg.Block
+				i int
+			}{b, i})
 		}
 	}
 	outOf := func(b *cfg.Block) factSet {
@@ -253,12 +261,36 @@ type exitFacts struct {
 }
 
 func mustFacts(g *cfg.CFG, gen func(ast.Node) []string, edge func(b *cfg.Block, i int) []string, want func(ast.Node) bool) map[ast.Node]factSet {
+	return mustFactsK(g, gen, nil, edge, want)
+}
+
+func sameFacts(a, b factSet) bool {
+	if len(a) != len(b) {
+		return false
+	}
+	for k := range a {
+		if !b[k] {
+			return false
+		}
+	}
+	return true
+}
+
+// mustFactsK is mustFacts with kills: kill(node) names the facts a node invalidates (applied before
+// the node's own gen).
+func mustFactsK(g *cfg.CFG, gen func(ast.Node) []string, kill func(ast.Node) []string, edge func(b *cfg.Block, i int) []string, want func(ast.Node) bool) map[ast.Node]factSet {
 	n := len(g.Blocks)
-	in := make([]factSet, n)   // nil = top (unvisited)
-	preds := make([][]struct{ b *cfg.Block; i int }, n)
+	in := make([]factSet, n) // nil = top (unvisited)
+	preds := make([][]struct {
+		b *cfg.Block
+		i int
+	}, n)
 	for _, b := range g.Blocks {
 		for i, s := range b.Succs {
-			preds[s.Index] = append(preds[s.Index], struct{ b *cfg.Block; i int }{b, i})
+			preds[s.Index] = append(preds[s.Index], struct {
+				b *cfg.Block
+				i int
+			}{b, i})
 		}
 	}
 	outOf := func(b *cfg.Block) factSet {
@@ -267,6 +299,11 @@ func mustFacts(g *cfg.CFG, gen func(ast.Node) []string, edge func(b *cfg.Block, 
 		}
 		o := in[b.Index].clone()
 		for _, nd := range b.Nodes {
+			if kill != nil {
+				for _, f := range kill(nd) {
+					delete(o, f)
+				}
+			}
 			for _, f := range gen(nd) {
 				o[f] = true
 			}
@@ -301,7 +338,7 @@ func mustFacts(g *cfg.CFG, gen func(ast.Node) []string, edge func(b *cfg.Block, 
 			if acc == nil {
 				continue
 			}
-			if in[b.Index] == nil || len(acc) != len(in[b.Index]) {
+			if in[b.Index] == nil || !sameFacts(acc, in[b.Index]) {
 				in[b.Index] = acc
 				changed = true
 			}
@@ -316,6 +353,11 @@ func mustFacts(g *cfg.CFG, gen func(ast.Node) []string, edge func(b *cfg.Block, 
 		for _, nd := range b.Nodes {
 			if want(nd) {
 				res[nd] = cur.clone()
+			}
+			if kill != nil {
+				for _, f := range kill(nd) {
+					delete(cur, f)
+				}
 			}
 			for _, f := range gen(nd) {
 				cur[f] = true
